@@ -33,6 +33,9 @@ type txListForSender struct {
 
 	scoreChunkMutex sync.RWMutex
 	mutex           sync.RWMutex
+
+	// copyPreviousNonceIsKnown tells whether copyPreviousNonce was set by a transaction copied in the current selection
+	copyPreviousNonceIsKnown bool
 }
 
 type scoreChangeCallback func(value *txListForSender, scoreParams senderScoreParams)
@@ -220,6 +223,7 @@ func (listForSender *txListForSender) selectBatchTo(isFirstBatch bool, destinati
 
 		listForSender.copyBatchIndex = listForSender.items.Front()
 		listForSender.copyPreviousNonce = 0
+		listForSender.copyPreviousNonceIsKnown = false
 		listForSender.copyDetectedGap = hasInitialGap
 
 		journal.isFirstBatch = true
@@ -230,6 +234,7 @@ func (listForSender *txListForSender) selectBatchTo(isFirstBatch bool, destinati
 	availableSpace := len(destination)
 	detectedGap := listForSender.copyDetectedGap
 	previousNonce := listForSender.copyPreviousNonce
+	previousNonceIsKnown := listForSender.copyPreviousNonceIsKnown
 
 	// If a nonce gap is detected, no transaction is returned in this read.
 	// There is an exception though: if this is the first read operation for the sender in the current selection process and the sender is in the grace period,
@@ -252,9 +257,9 @@ func (listForSender *txListForSender) selectBatchTo(isFirstBatch bool, destinati
 		value := element.Value.(*WrappedTransaction)
 		txNonce := value.Tx.GetNonce()
 
-		// previousNonce is meaningful for all but the first transaction of the list (which might have the nonce 0)
-		isFirstTx := element == listForSender.items.Front()
-		if !isFirstTx && txNonce > previousNonce+1 {
+		// previousNonce is meaningful for all but the first transaction copied in the current selection (which might have the nonce 0).
+		// Being the front of the list does not tell that: the transactions copied by previous batches might have been removed in the meantime
+		if previousNonceIsKnown && txNonce > previousNonce+1 {
 			listForSender.copyDetectedGap = true
 			journal.hasMiddleGap = true
 			break
@@ -263,10 +268,12 @@ func (listForSender *txListForSender) selectBatchTo(isFirstBatch bool, destinati
 		destination[copied] = value
 		element = element.Next()
 		previousNonce = txNonce
+		previousNonceIsKnown = true
 	}
 
 	listForSender.copyBatchIndex = element
 	listForSender.copyPreviousNonce = previousNonce
+	listForSender.copyPreviousNonceIsKnown = previousNonceIsKnown
 	journal.copied = copied
 	return journal
 }
